@@ -46,7 +46,7 @@ func init() {
 			"Steered cases: λ is solved so that a first-level intermediate of the formulas (Y^2, Z^2, YZ, XY, X, Y for doubling; X1X2, Y1Y2, Z1Z2, X+Y, Y+Z, X+Z for addition) lands on a structured STORED value " +
 			"(specials, ±3 around every multiple of 2^252..2^255, around j*p/2, j*p/4, j*p/8): the thin sets on which a hand-optimised small multiple or lazy reduction inside a formula errs. " +
 			"Trap cases: the argument lives in an mmap'd page made read-only during the call (a write-then-restore of the argument is invisible to before/after comparison). History cases: the receiver reached its value through each mutator after holding, and operating with, another value. " +
-			"non-trivial = at least one operand is not O, or an identity in non-canonical form; distinct by the whole case. Plus concurrent batches: 8 goroutines run the operations simultaneously on objects they own, each result judged against the oracle.",
+			"Counters: one receiver updated in place (Add resp. Subtract of one argument) 2^8 times, observed, 2^16 times, observed (thorough: 2^20 more), against P ± kQ. non-trivial = at least one operand is not O, or an identity in non-canonical form; distinct by the whole case. Plus concurrent batches: 8 goroutines run the operations simultaneously on objects they own, each result judged against the oracle.",
 		NewCase:  func() any { return &c02Case{} },
 		Generate: c02Generate,
 		Run:      c02Run,
@@ -55,7 +55,7 @@ func init() {
 				"rel:O": 50, "rel:P": 50, "rel:-P": 50, "rel:phiP": 50, "rel:phi2P": 50, "rel:-phiP": 20, "rel:2P": 50, "rel:unrelated": 50,
 				"alias:same": 50, "alias:copy": 50, "op:add-nil": 5, "op:sub-nil": 5, "op:double": 100, "op:negate": 100, "op:assoc": 50,
 				"O+O": 20, "idrepr:id-y": 50, "steer:Y2": 50, "steer:Z2": 50, "steer:YZ": 20, "steer:XY": 20, "steer:X1X2": 50, "steer:Y1Y2": 50, "steer:Z1Z2": 50, "steer:X+Y": 50,
-				"trap-cases": 300, "trap-liveness": 1, "history-cases": 100, "observed-first": 300,
+				"trap-cases": 300, "trap-liveness": 1, "history-cases": 100, "observed-first": 300, "counter-runs": 6,
 			}
 		},
 	})
@@ -231,6 +231,18 @@ func c02Generate(c *mon.Ctx) {
 			// the moved object as the ARGUMENT of an operation on another receiver
 			c.Structured(func() any { return &c02Case{Op: "arg-" + op, B: &b, Alias: "distinct", Rel: "unrelated", Move: &mv, Observe: obs} })
 		}
+	}
+
+	// 4b. counters: one receiver updated in place 2^8, then 2^16 (thorough: then 2^20) times, observed in between
+	for i := 0; i < 3; i++ {
+		pv, q := gen.Fresh(hr), gen.Fresh(hr)
+		if i == 0 {
+			q = gen.PV{P: oracle.G(), Tag: "G"}
+		}
+
+		a, b := mon.MkElemCase(pv, gen.DrawRepr(hr, false)), mon.MkElemCase(q, gen.DrawRepr(hr, false))
+		op := []string{"counter-add", "counter-sub", "counter-add"}[i]
+		c.Structured(func() any { return &c02Case{Op: op, A: a, B: &b, Alias: "distinct", Rel: "unrelated"} })
 	}
 
 	// 5. PRNG cases
@@ -600,6 +612,48 @@ func c02Run(c *mon.Ctx, csAny any) {
 
 		checkResult(l, want, "assoc-left")
 		checkResult(r2, want, "assoc-right")
+	case "counter-add", "counter-sub":
+		b, pb = cs.B.Build(), cs.B.P.Pt()
+		nontrivial = true
+		total := int64(0)
+		want = pa
+
+		dists := []int64{1 << 8, 1 << 16}
+		if c.Thorough() && c.Stride() == 1 {
+			dists = append(dists, 1<<20)
+		}
+
+		_, _ = a.Encode(), a.IsIdentity()
+
+		for _, d := range dists {
+			if pan, pv := mon.Call(func() {
+				for i := int64(0); i < d; i++ {
+					if cs.Op == "counter-add" {
+						a.Add(b)
+					} else {
+						a.Subtract(b)
+					}
+				}
+			}); pan {
+				c.Fail(fmt.Sprintf("%s: panic in a run of %d in-place updates of one receiver: %v", cs.Op, d, pv), "counter-panic", nil)
+				return
+			}
+
+			total += d
+			c.Eval(int(d))
+
+			k := big.NewInt(total)
+			if cs.Op == "counter-sub" {
+				k.Neg(k)
+			}
+
+			want = oracle.Add(pa, oracle.Mul(oracle.Mod(k, oracle.N), pb))
+			if !checkResult(a, want, fmt.Sprintf("counter-%d", total)) {
+				return
+			}
+
+			c.Count("counter-runs")
+		}
 	case "addsub":
 		b, pb = cs.B.Build(), cs.B.P.Pt()
 		nontrivial = true
